@@ -87,6 +87,13 @@ func bytesOfUint64s(s []uint64) []byte {
 func init() {
 	// *[]byte buffers of the converters
 	simrt.RegisterPoolHook("conv.bufPool", &simrt.PoolHook{
+		// worlds that guard the library's growth sites also guard the pool's fresh buffers: a write past
+		// the capacity of any output buffer is a fault
+		Shape: func(w *simrt.World, x interface{}) {
+			if p := x.(*[]byte); w.GuardGrowth && cap(*p) > 0 {
+				*p = simrt.MakeBytes(0, cap(*p))
+			}
+		},
 		Poison: poisonBytesPtr, Verify: verifyBytesPtr,
 	})
 	simrt.RegisterPoolHook("thrift.bpPool", &simrt.PoolHook{
